@@ -251,7 +251,7 @@ func (c *LocalActionsCache) FindMetadata(spec string) (*ActionMetadata, bool, er
 		if m, cached := c.writeCache(spec, nil); cached { // Remember action was invalid
 			return m, true, nil
 		}
-		msg := strings.ReplaceAll(err.Error(), "\n", " ")
+		msg := oneLine(err.Error())
 		return nil, false, fmt.Errorf("could not parse action metadata in %q: %s", dir, msg)
 	}
 	meta.file = f
